@@ -8,8 +8,8 @@ Driver for C35 (`Model.Envelope`).
   `seal <j> k<n> d<n> <kind> <parent> <fields>`  honest signing event j (must be the next index):
                                           the model seals the command (`sealCmd`)                -> `ok <j>`
   `merge <j>`                             command j of the honest history is a merge (no event)  -> `ok`
-  `mut <i> <n>`                           selector used by the harness' replay mode              -> `ok`
-  `recv <st> g<0|1> p<0|1> <id> <par> <prio> <data>`   one delivered wire command:
+  `recv <tag> <st> g<0|1> p<0|1> <id> <par> <prio> <data>`   one delivered wire command
+        (tag = `<i>.<n>` change n of command i | `h` honest | `-`; ignored by the model):
         st   = `new` (no storage yet) | `dup` (address already present) | `old`
         g    = the id equals the graph id;  p = the command carries policy bytes
         par  = `n` | `s:<id>:<located 0|1>` | `m:<l located>:<r located>`
@@ -115,10 +115,6 @@ def step (s : St) (toks : List String) : St × String :=
     match j.toNat? with
     | some j => if j == s.events.length then ({ s with events := s.events ++ [none] }, "ok") else (s, "bad-op")
     | none => (s, "bad-op")
-  | ["mut", i, n] =>
-    match i.toNat?, n.toNat? with
-    | some _, some _ => (s, "ok")
-    | _, _ => (s, "bad-op")
   | ["seal", j, k, _d, kind, parent, fields] =>
     match j.toNat?, keyIdx? k, tok s kind, tok s parent, tok s fields with
     | some j, some k, some kind, some parent, some fields =>
@@ -126,7 +122,7 @@ def step (s : St) (toks : List String) : St × String :=
         ({ s with events := s.events ++ [some (k, ⟨kind, parent, fields⟩)] }, s!"ok {j}")
       else (s, "bad-op")
     | _, _, _, _, _ => (s, "bad-op")
-  | ["recv", st, g, p, id, par, prio, data] =>
+  | ["recv", _tag, st, g, p, id, par, prio, data] =>
     let stOk := st == "new" || st == "dup" || st == "old"
     match stOk, g, p, tok s id, par? s par, prio? prio, data? s data with
     | true, g, p, some id, some (parent, loc, mloc), some prio, some d =>
